@@ -141,6 +141,11 @@ fn(H2 + "._handle_events", params={"events": "obj pyvc:H2Events"}, task="reader"
         "trace_any('calls', 'c', (c[0] == 'HTTPStream.handle' or c[0] == 'WSStream.handle') and isinstance(c[2], Body) and c[2].stream_id == event.stream_id and c[2].data == event.data))", "C01,C10"),
        ("C01.h2.end", "implies(isinstance(event, h2.events.StreamEnded) and in_map(self.streams, event.stream_id), "
         "trace_any('calls', 'c', (c[0] == 'HTTPStream.handle' or c[0] == 'WSStream.handle') and isinstance(c[2], EndBody) and c[2].stream_id == event.stream_id))", "C01"),
+       # C08 "whenever ... the stream is reset ... every waiting send returns promptly": a sender
+       # blocked on the reset stream's buffer is released by the send task (h2 refuses the stream,
+       # _send_data closes the buffer), so the stream must be schedulable and the send task woken
+       ("C08.release.on-reset", "implies(isinstance(event, h2.events.StreamReset) and in_map(self.stream_buffers, event.stream_id), "
+        "sel(self.priority.active, event.stream_id) and self.has_data.flag)", "C08,C09"),
        # C07 (HTTP/2): every request that is taken on reports the connection busy, whatever the
        # other streams are doing (the server stops the keep-alive timer on that report)
        ("C07.h2.busy", "implies(isinstance(event, h2.events.RequestReceived) and count_calls('H2Protocol._create_stream') >= 1, "
@@ -184,6 +189,7 @@ fn(H2 + "._window_updated", params={"stream_id": "opt int"}, task="reader",
        ("C09.wake.all", "implies(stream_id is None or stream_id == 0, forall_int('k', implies(in_map(old(self.stream_buffers), k), sel(self.priority.active, k))))", "C09,C08,C02"),
        ("C09.wake.one", "implies(stream_id is not None and stream_id != 0 and in_map(old(self.stream_buffers), stream_id), sel(self.priority.active, stream_id))", "C09,C08,C02"),
        ("C09.wake.signal", "self.has_data.flag", "C09,C08,C02"),
+       ("window.buffers-unchanged", "map_same(self.stream_buffers, old(self.stream_buffers))", "C09"),
    ],
    props=("C04", "C09"))
 fn(H2 + "._priority_updated", params={"event": "obj h2.events:PriorityUpdated"}, task="reader", props=("C04", "C09"))
